@@ -9,8 +9,8 @@ from verifkit import gen
 
 def val_tok(v):
     k, x = v
-    if k == "u":
-        return f"u{x}"
+    if k in ("u", "t"):
+        return f"{k}{x}"
     if k == "e":
         return "e"
     return k + gen.hexb(x)
@@ -21,8 +21,8 @@ def vals_tok(vs):
 
 
 def parse_val(t):
-    if t[0] == "u":
-        return ("u", int(t[1:]))
+    if t[0] in ("u", "t"):
+        return (t[0], int(t[1:]))
     return (t[0], b"" if t[1:] == "-" else bytes.fromhex(t[1:]))
 
 
@@ -37,6 +37,8 @@ def payload(v):
         return gen.head(0, x)
     if k == "b":
         return gen.head(2, len(x)) + x
+    if k == "t":
+        return gen.head(0, x) + b"\x00"  # a value whose Encode impl writes one item more than its Decode impl reads (read back as the number alone)
     if k == "e":
         return b""                       # a value whose Encode impl writes nothing: an empty payload, still a frame
     return None
@@ -103,6 +105,8 @@ def rand_composition(rng, n, maxpart=None):
 
 def rand_val(rng, maxbytes=40):
     r = rng.random()
+    if r < 0.08:
+        return ("t", gen.rand_u(rng, 64))
     if r < 0.5:
         return ("u", gen.rand_u(rng, 64))
     return ("b", gen.rand_bytes(rng, rng.choice([0, 1, 2, 3, 23, 24, 25, rng.randint(0, maxbytes)])))
